@@ -250,6 +250,37 @@ def run(rep):
         nfilt_ok += 1
     rep.coverage["filter_depth_cases"] = nfilt_ok
 
+    # ---- the compress (.Z) read filter: extracted LZW decoder model vs the real filter on hostile code streams
+    import lzwgen
+    lz_runner = vlib.build_runner("lzw")
+    lz_exe = vlib.compile_harness("lzw", "asan")
+    rz = vlib.rng(rep.seed, "C01-lzw")
+    zcases = [vfmt([z]) for z in lzwgen.directed()] + [vfmt([lzwgen.gen_stream(rz)]) for _ in range(1500 if quick else 40000)]
+    # a decoded stream that itself starts like a .Z stream gets a second compress filter stacked on it: left out
+    rcz, zl, zerr = vlib.run_exe(lz_runner, vlib.write_cases(zcases, "lzw-pre.cases"), timeout=1800)
+    def nested(line):
+        v = vparse(line)
+        return len(v) > 1 and len(v[1]) >= 3 and v[1][0] == 0x1f and v[1][1] == 0x9d and (v[1][2] & 0x60) == 0
+    zcases = [c for c, l in zip(zcases, zl) if not nested(l)] if len(zl) == len(zcases) else zcases
+    stz = vlib.correspond(rep, "lzw", lz_runner, lz_exe, vlib.load_corpus("C01-lzw") + zcases, timeout=1800)
+    rep.coverage["lzw_correspondence"] = stz
+
+    # ---- the tar reader's number parsers on fields that end where the buffer ends (they are used on pax attribute
+    # values and on the GNU sparse 0.1 map straight from the read buffer): harness fmtnum hands them exactly the field
+    fmtnum = vlib.compile_harness("fmtnum", "asan", private=True)
+    ncases = []
+    for kind in (0, 1, 3):
+        for field in (b"7", b"1234567", b"00000001750", b" 644", b"12345678901", b"777777777777", b"-5", b"9" * 19, b"9" * 40):
+            ncases.append(vfmt([11, kind, field]))
+    ncases.append(vfmt([11, 2, bytes([0x80, 0, 0, 0, 0, 0, 0, 0, 0, 0, 1, 2])]))
+    ncases.append(vfmt([11, 2, bytes([0xff] * 12)]))
+    rcn, nlines, nerr = vlib.run_exe(fmtnum, vlib.write_cases(ncases, "c01-fmtnum.cases"))
+    if rcn != 0 or len(nlines) != len(ncases):
+        k = min(len(nlines), len(ncases) - 1)
+        rep.violation("C01:crash:tar-number:%s" % vlib.crash_key(nerr), "a tar number parser read outside a field that fills its buffer (rc=%s, %s) on %s" %
+                      (rcn, vlib.crash_key(nerr), ncases[k]), dict(case=ncases[k], stderr=nerr[-3000:], cmd="harness fmtnum (asan) on the case line"), found_input=True)
+    rep.coverage["number_parser_cases"] = len(nlines)
+
     # ---- runtime part: sanitizer-backed search over real formats
     readall = vlib.compile_harness("readAll", "asan")
     mk = vlib.compile_harness("mkArchive", "asan")
@@ -277,6 +308,19 @@ def run(rep):
             continue
         rcases.append(readcore.read_case(data, source=(0,), rplan=[512] * (len(data) // 512 + 2), consume=(0, 4096, 0)))
         meta.append((name, "intact", 512, (0, 4096, 0)))
+    # multi-volume input whose first volumes are shorter than the bidders' read-ahead, with a filter in front of the
+    # format: files (archive_read_open_filenames) and appended callback data
+    for name, arc in arcs:
+        if name.startswith("w:") and "+" in name and "#" not in name and len(arc) > 40:
+            for src in ((6, 3, 9), (6, 1, len(arc) // 2), (7, 3, 9), (7, 20)):
+                rcases.append(readcore.read_case(arc, source=src, rplan=[4096], has_skip=1, has_seek=1, consume=(0, 4096, 0)))
+                meta.append((name, "volumes%r" % (src,), 4096, (0, 4096, 0)))
+    for name, arc in readcore.reference_archives(400000):
+        if name.endswith(".rpm"):          # the rpm filter hands its input on without buffering any of it
+            for src in ((6, len(arc) // 3, 2 * len(arc) // 3), (6, 3087, 6724), (7, len(arc) // 3, 2 * len(arc) // 3), (6, 50), (7, 50)):
+                if src[-1] < len(arc):
+                    rcases.append(readcore.read_case(arc, source=src, rplan=[4096], has_skip=1, has_seek=1, consume=(0, 4096, 0)))
+                    meta.append((name, "volumes%r" % (src,), 4096, (0, 4096, 0)))
     for name, data, plan in pax_inputs():
         rcases.append(readcore.read_case(data, source=(0,), rplan=plan, consume=(0, 4096, 0)))
         meta.append((name, "crafted", plan[0] if plan else 0, (0, 4096, 0)))
@@ -339,7 +383,20 @@ def run(rep):
 def replay(rep, path):
     import json
     d = json.load(open(path))["replay"]
-    exe = vlib.compile_harness("readAll", "asan") if d.get("archive") else vlib.compile_harness("readCore", "asan", private=True)
-    p = vlib.write_cases([d["case"]], "replay.cases")
-    print(vlib.run_exe(exe, p, env={"VERIF_TMP": vlib.scratch()}))
-    rep.coverage.update(evaluations=1, distinct_nontrivial=1, samples=[d["case"][:300]])
+    case = d.get("case")
+    if d.get("correspondence") == "lzw":
+        vlib.correspond(rep, "lzw", vlib.build_runner("lzw"), vlib.compile_harness("lzw", "asan"), [case])
+    elif d.get("correspondence") in ("readCore", "filters", "choose_filters") or not (d.get("archive") or "fmtnum" in d.get("cmd", "")):
+        runner = vlib.build_runner("readCore")
+        core = vlib.compile_harness("readCore", "asan", private=True)
+        vlib.correspond(rep, "readCore", runner, core, [case])
+    else:
+        exe = vlib.compile_harness("fmtnum", "asan", private=True) if "fmtnum" in d.get("cmd", "") else vlib.compile_harness("readAll", "asan")
+        rc, lines, err = vlib.run_exe(exe, vlib.write_cases([case], "replay.cases"), env={"VERIF_TMP": vlib.scratch()}, timeout=1800)
+        dg = readcore.digest_ok(lines[0]) if lines and d.get("archive") else None
+        if rc != 0 or not lines:
+            rep.violation("C01:crash:replay:%s" % vlib.crash_key(err), "the harness stopped (rc=%s, %s) on the replayed input" % (rc, vlib.crash_key(err)),
+                          dict(d, stderr=err[-3000:]), found_input=True)
+        elif dg is not None and (dg[-3] & 16):
+            rep.violation("C01:leak:replay", "memory remains after archive_read_free on the replayed input", dict(d), found_input=True)
+    rep.coverage.update(evaluations=1, distinct_nontrivial=1, samples=[(case or "")[:300]])
